@@ -515,6 +515,55 @@ func dvReuseSparse(c *explore.Ctx) {
 	}
 }
 
+// dvReuseBigChunk: three doc-value chunks whose uncompressed sizes are 1.1 MiB, 0.3 MiB and 4.4 MiB
+// (whatever a reader keeps, trims or re-uses by size); every order of <= 3 visits over two documents
+// of each chunk with ONE reader (plus the warm-up variant), each visit compared with the model.
+func dvReuseBigChunk(c *explore.Ctx) {
+	scope := "DV-REUSE"
+	if !c.MineIdx(scope, 101) {
+		return
+	}
+	n := 2100
+	batch := make([]model.Doc, n)
+	for i := range batch {
+		sz := []int{1100, 300, 4200}[i/1024]
+		t := make([]byte, sz)
+		copy(t, fmt.Sprintf("%05d-", i))
+		for j := 6; j < sz; j++ {
+			t[j] = byte('a' + (j*7+i)%26)
+		}
+		batch[i] = model.Doc{gen.IDField("c", i), {N: "b", Len: 1, DV: true, Terms: []model.Term{{T: string(t), Freq: 1}}}}
+	}
+	seg, err := build(batch, 1025)
+	if err != nil {
+		c.Violate(scope, 101, sigOf("C13", "dv-build", "error: "+err.Error()), err.Error(), "big chunks")
+		return
+	}
+	ls := model.Build(batch)
+	b, _, err := persist(seg)
+	if err != nil {
+		c.Violate(scope, 101, sigOf("C13", "dv-build", "error: "+err.Error()), err.Error(), "big chunks")
+		return
+	}
+	loaded, err := loadMem(b)
+	if err != nil {
+		c.Violate(scope, 101, sigOf("C13", "dv-build", "error: "+err.Error()), err.Error(), "big chunks")
+		return
+	}
+	for si, sg := range []segment.Segment{seg, loaded} {
+		for _, o := range orders([]uint64{6, 7, 1030, 1031, 2050, 2099}, 3) {
+			c.Eval()
+			c.R.Distinct++
+			c.Nontrivial()
+			c.R.Transitions += int64(len(o))
+			if bad, _ := runDVSeq(sg, ls, []string{"b"}, o); bad != "" {
+				c.Violate(scope, 101, "C13/dv-reuse/wrong", bad, fmt.Sprintf("DV-REUSE big chunks (1.1 MiB, 0.3 MiB, 4.4 MiB uncompressed), segment form %d (0 built, 1 loaded)", si))
+				return
+			}
+		}
+	}
+}
+
 // largeReuse: LARGE-REUSE - one adaptive-mode segment of 2100 documents with terms of cardinality
 // 2100, 1050, 700 and 5 (different 1024-buckets, hence different chunk sizes) and a second small
 // segment: every sequence of <= 3 lookups in which the one PostingsList and the one PostingsIterator
@@ -639,6 +688,7 @@ func largeReuse(c *explore.Ctx) {
 
 func dvReuse(c *explore.Ctx) {
 	dvReuseSparse(c)
+	dvReuseBigChunk(c)
 	type cs struct{ n, p int }
 	for ci, k := range []cs{{1030, 4}, {1030, 0}, {2049, 3}, {2049, 7}} {
 		scope := "DV-REUSE"
